@@ -36,6 +36,7 @@ type c18GlueCase struct {
 	TopicOK   bool `json:"topic_ok"`
 	PubOK     bool `json:"pub_ok"`
 	Err       bool `json:"err"`
+	EmptyText bool `json:"empty_text"` // the handler error has the empty text
 
 	Op     int             `json:"op"`
 	Res    int             `json:"res"`
@@ -110,6 +111,9 @@ func c18RunGlueCase(g *c18GlueCase, in *script.Interner, n int) {
 	herr := error(nil)
 	if g.Err {
 		herr = fmt.Errorf("glue handler error %d", n)
+		if g.EmptyText {
+			herr = errors.New("")
+		}
 		g.ErrID = w.errID(herr.Error())
 	}
 	msg := message.NewMessage(fmt.Sprintf("glue-cmd-%d", n), []byte(`{"id":"g"}`))
@@ -278,9 +282,9 @@ func c18Glue(in *script.Interner) ([]*c18GlueCase, []c18Check) {
 						for _, marshal := range bools {
 							for _, topic := range bools {
 								for _, pubOK := range bools {
-									for _, e := range bools {
+									for e := 0; e < 3; e++ { // no error, error with a text, error with the empty text
 										n++
-										g := &c18GlueCase{AckErrors: ack, Modify: modify, ErrH: errh, Orig: orig, HasOp: hasOp, Marshal: marshal, TopicOK: topic, PubOK: pubOK, Err: e}
+										g := &c18GlueCase{AckErrors: ack, Modify: modify, ErrH: errh, Orig: orig, HasOp: hasOp, Marshal: marshal, TopicOK: topic, PubOK: pubOK, Err: e > 0, EmptyText: e == 2}
 										c18RunGlueCase(g, in, n)
 										cases = append(cases, g)
 									}
